@@ -53,6 +53,12 @@ CONSTANTS Writers, Subs, Ids, MaxV,
                                \* is still held (a subscriber registering later has the change in its seed);
                                \* FALSE = pinned: copied when the publication begins, after the lock was released
           MayCancel,           \* subscribers may cancel
+          Equiv,               \* "none": no equivalence configured.  "coll" / "val": the resource suppresses changes
+                               \* equivalent (here: equal) to what the subscriber holds -- a Collection judges a change
+                               \* against what the receiver was last sent for the id (its old value if it was sent
+                               \* nothing), forgetting the id when it hands a removal over; a Value against the last
+                               \* value sent.  "coll-keep": the deviation that keeps the entry of a removed id.
+                               \* (Only for subscribers with backpressure.)
           SubSer               \* TRUE: a subscription that takes a snapshot holds the publication mutex while it takes
                                \* the snapshot and registers (no write is between commit and publication then);
                                \* FALSE = the pinned code: a change can be both in the snapshot and delivered, and a
@@ -60,6 +66,7 @@ CONSTANTS Writers, Subs, Ids, MaxV,
 
 Absent == -1
 NoW == 0
+NoHeld == -5
 
 VARIABLES
   store,      \* [Ids -> [v, ver]]   v = Absent when there is no item
@@ -73,7 +80,9 @@ VARIABLES
   kind,       \* [Subs -> [uo]]      fixed at Init
   spc,        \* per subscriber: "idle" | "snapped" | "open" | "cancelled"
   snap,       \* per subscriber: the snapshot taken ([Ids -> v])
-  fwd,        \* per subscriber: forwarder [st : "none"|"seeding"|"wait"|"hold", q : events still to hand over]
+  fwd,        \* per subscriber: forwarder [st : "none"|"seeding"|"wait"|"hold", q : events still to hand over,
+              \*                             h : what the receiver was last sent per id (NoHeld: nothing), kept
+              \*                             only when an equivalence is configured]
   view,       \* per subscriber: the consumer's fold [Ids -> v], and whether anything was received per id
   seen,       \* per subscriber: [ids : [Ids -> BOOLEAN] received at least one event/seed for the id,
               \*                  seqs : commit numbers of the events received, after : commits made before it registered]
@@ -97,12 +106,12 @@ Init ==
   /\ loc = [w \in Writers |-> [old |-> Absent, ver |-> 0, created |-> FALSE, new |-> Absent, attempt |-> 0,
                                err |-> "none", ret |-> Absent]]
   /\ pub = [w \in Writers |-> [id |-> CHOOSE i \in Ids : TRUE, v |-> Absent, seq |-> 0, add |-> FALSE, targets |-> <<>>,
-                               copy |-> <<>>, gc |-> FALSE]]
+                               copy |-> <<>>, gc |-> FALSE, pre |-> Absent]]
   /\ lsn = <<>>
   /\ kind \in [Subs -> SubKinds]
   /\ spc = [s \in Subs |-> "idle"]
   /\ snap = [s \in Subs |-> [i \in Ids |-> Absent]]
-  /\ fwd = [s \in Subs |-> [st |-> "none", q |-> <<>>]]
+  /\ fwd = [s \in Subs |-> [st |-> "none", q |-> <<>>, h |-> [i \in Ids |-> NoHeld]]]
   /\ view = [s \in Subs |-> [i \in Ids |-> Absent]]
   /\ seen = [s \in Subs |-> [ids |-> [i \in Ids |-> FALSE], seqs |-> {}, after |-> 0]]
   /\ commitLog = <<>>
@@ -166,7 +175,7 @@ Commit(w) ==
             /\ nextVer' = nextVer + 1
             /\ commitLog' = Append(commitLog, [w |-> w, id |-> c.id, pre |-> cur.v, post |-> loc[w].new])
             /\ pub' = [pub EXCEPT ![w] = [id |-> c.id, v |-> loc[w].new, seq |-> Len(commitLog) + 1,
-                                           add |-> (cur.v = Absent), gc |-> FALSE,
+                                           add |-> (cur.v = Absent), gc |-> FALSE, pre |-> cur.v,
                                            targets |-> IF SnapAtCommit THEN lsn ELSE <<>>,
                                            copy |-> IF SnapAtCommit THEN lsn ELSE <<>>]]
             /\ loc' = [loc EXCEPT ![w].ret = loc[w].new]
@@ -212,13 +221,22 @@ Deliver(w) ==
   /\ pc[w] \in {"deliver", "ddeliver"} /\ pub[w].targets # <<>>
   /\ spc[s] = "cancelled" \/ kind[s].lossy \/ fwd[s].st = "wait"
   /\ Step("Deliver", w)
-  /\ LET gone == spc[s] = "cancelled"  gc == pub[w].gc \/ gone IN
-     /\ fwd' = IF gone THEN fwd      \* a cancelled listener is skipped (and the bus collected afterwards)
+  /\ LET gone == spc[s] = "cancelled"  gc == pub[w].gc \/ gone
+         \* the forwarder's equivalence decision on taking the event from the bus
+         last == IF fwd[s].h[e.id] # NoHeld THEN fwd[s].h[e.id]
+                 ELSE IF Equiv \in {"coll", "coll-keep"} THEN pub[w].pre ELSE Absent
+         skip == Equiv # "none" /\ ~kind[s].lossy /\ last # Absent /\ last = e.v
+         h2 == IF Equiv = "none" \/ kind[s].lossy THEN fwd[s].h
+               ELSE [fwd[s].h EXCEPT ![e.id] = IF e.v = Absent THEN (IF Equiv = "coll-keep" THEN @ ELSE NoHeld) ELSE e.v]
+     IN
+     /\ fwd' = IF gone \/ skip THEN fwd      \* a cancelled listener is skipped (and the bus collected afterwards)
                 ELSE [fwd EXCEPT ![s] = [st |-> IF fwd[s].st = "wait" THEN "hold" ELSE fwd[s].st,
-                                         q |-> IF kind[s].lossy THEN Pipe(fwd[s].q, e) ELSE <<e>>]]
+                                         q |-> IF kind[s].lossy THEN Pipe(fwd[s].q, e) ELSE <<e>>, h |-> h2]]
+     \* (a change suppressed as equivalent is accounted for)
+     /\ seen' = IF ~gone /\ skip THEN [seen EXCEPT ![s].seqs = seen[s].seqs \cup {e.seq}] ELSE seen
      /\ pub' = [pub EXCEPT ![w].targets = Tail(pub[w].targets), ![w].gc = gc]
      /\ IF Len(pub[w].targets) = 1 THEN EndPublish(w, gc) ELSE UNCHANGED <<pc, loc, mu, lsn>>
-  /\ UNCHANGED <<store, nextVer, prog, kind, spc, snap, view, seen, commitLog>>
+  /\ UNCHANGED <<store, nextVer, prog, kind, spc, snap, view, commitLog>>
 
 ----------------------------------------------------------------------------
 (* Delete                                                                   *)
@@ -266,7 +284,7 @@ DLock(w) ==
                  THEN /\ pc' = [pc EXCEPT ![w] = "done"] /\ UNCHANGED <<pub, mu>>
                       /\ loc' = [loc EXCEPT ![w].ret = cur.v, ![w].err = "OK"]
                  ELSE /\ pub' = [pub EXCEPT ![w] = [id |-> c.id, v |-> Absent, seq |-> Len(commitLog) + 1, add |-> FALSE,
-                                                     targets |-> lsn, copy |-> lsn, gc |-> FALSE]]
+                                                     targets |-> lsn, copy |-> lsn, gc |-> FALSE, pre |-> cur.v]]
                       /\ pc' = [pc EXCEPT ![w] = "ddeliver"]
                       /\ loc' = [loc EXCEPT ![w].ret = cur.v]
                       /\ mu' = Take(w, [mu EXCEPT !.w = w])  \* Delete sends while holding the write lock
@@ -301,7 +319,10 @@ SubListen(s) ==
   /\ lsn' = Append(lsn, s)
   /\ mu' = [mu EXCEPT !.r = mu.r \ {s}, !.ser = IF mu.ser = 0 - s THEN NoW ELSE mu.ser]
   /\ LET seeds == IF kind[s].uo THEN <<>> ELSE SeedSeq(Ids, snap[s]) IN
-     fwd' = [fwd EXCEPT ![s] = [st |-> IF seeds = <<>> THEN "wait" ELSE "seeding", q |-> seeds]]
+     fwd' = [fwd EXCEPT ![s] = [st |-> IF seeds = <<>> THEN "wait" ELSE "seeding", q |-> seeds,
+                                \* (every seed has been handed to the consumer before the first event is looked at)
+                                h |-> [i \in Ids |-> IF Equiv = "none" \/ kind[s].uo \/ snap[s][i] = Absent THEN NoHeld
+                                                     ELSE snap[s][i]]]]
   /\ seen' = [seen EXCEPT ![s].after = Len(commitLog)]
   /\ UNCHANGED <<store, nextVer, prog, pc, loc, pub, kind, snap, view, commitLog>>
 
@@ -311,7 +332,7 @@ SubCancel(s) ==
   /\ spc[s] = "open"
   /\ Step("SubCancel", s)
   /\ spc' = [spc EXCEPT ![s] = "cancelled"]
-  /\ fwd' = [fwd EXCEPT ![s] = [st |-> "none", q |-> <<>>]]
+  /\ fwd' = [fwd EXCEPT ![s] = [st |-> "none", q |-> <<>>, h |-> fwd[s].h]]
   /\ UNCHANGED <<store, nextVer, mu, prog, pc, loc, pub, lsn, kind, snap, view, seen, commitLog>>
 
 \* the consumer takes the next seed or the held event
@@ -325,7 +346,7 @@ Recv(s) ==
                                           ELSE IF fwd[s].st = "seeding" /\ ~Head(Tail(fwd[s].q)).add THEN "hold"
                                           ELSE IF fwd[s].st = "seeding" /\ Head(Tail(fwd[s].q)).seq # 0 THEN "hold"
                                           ELSE fwd[s].st,
-                                   q |-> Tail(fwd[s].q)]]
+                                   q |-> Tail(fwd[s].q), h |-> fwd[s].h]]
   /\ UNCHANGED <<store, nextVer, mu, prog, pc, loc, pub, lsn, kind, spc, snap, commitLog>>
 
 ----------------------------------------------------------------------------
